@@ -111,6 +111,10 @@ pub const FRAGMENTS: &[&str] = &[
     "(+ x 1) (define w 10)",
     "x (define-syntax k (syntax-rules () ((k) 5))) ",
     "(k)",
+    // a definition whose value depends on the state it changes: evaluated exactly once
+    "(define x (+ x 1))",
+    "(define y (+ y 1))",
+    "y",
 ];
 
 #[derive(Debug, PartialEq, Clone)]
